@@ -336,7 +336,8 @@ def g_new_shell(rng, cfg):
         "coord": coord,
         "share": share,
         "ctype": rng.choice(["cartesian", "spherical", "spherical", "c", "p"]),
-        "cls": rng.choice(["base", "base", "base", "conv", "pyscf", "unnorm", "cartperm", "sphperm"]),
+        "cls": rng.choice(["base", "base", "base", "conv", "pyscf", "unnorm", "cartperm", "sphperm", "instconv"]),
+        "variant": rng.randrange(3),
         "array_layout": rng.choice(["c", "c", "c", "strided", "column"]),
         "icenter": rng.choice([None, None, 0, 1, 2]),
     }
@@ -652,6 +653,8 @@ def g_query(rng, cfg, fn=None):
     if heavy:
         op["keep"] = None
         op["env"] = op["fault"] = op["invalid"] = None
+    if op["big"] and op.get("fault"):
+        op["fault"] = None  # the abort sites of a call do not depend on the size of its input
     return op
 
 
@@ -748,6 +751,7 @@ def gen_sweep(seed, profile):
         q = g_query(rng, cfg2, fn=target)
         q["keep"] = None
     q["invalid"] = None
+    q["big"] = q["huge"] = q["heavy"] = False  # a sweep repeats its call 24 times, several passes each
     q["env"] = g_env(rng, dict(cfg, p_fault=0.25)) if rng.random() < 0.3 else None
     for t in range(SWEEP_CHUNK):
         qq = dict(q)
